@@ -57,7 +57,7 @@ func runSelftest(id, repo string, verbose bool) (int, []string) {
 			continue
 		}
 		mut := strings.Replace(string(src), m.Old, m.New, 1)
-		res := runProperty(ps, repo, map[string][]byte{file: []byte(mut)}, RunOpts{Timeout: 10 * time.Second, Agree: 1})
+		res := runProperty(ps, repo, map[string][]byte{file: []byte(mut)}, RunOpts{Timeout: 30 * time.Second, Agree: 1})
 		var failed []string
 		if res.LoadError != "" {
 			bad = append(bad, m.Name+": mutant does not load: "+firstLines(res.LoadError, 3))
